@@ -1,4 +1,5 @@
-# Per-property check configuration: scenarios = [(harness scenario, build flavour, share of the budget)].
+# Per-property check configuration: scenarios = [(harness scenario, build flavour, runs in the quick tier, share of the
+# thorough time box)].
 COMMON_NOTE = ("Trusted: model/refop.cpp (sequential reference implementation of the documented stencil), the a-priori "
                "rounding bounds (DESIGN 3.3), g++/libstdc++, and that simgomp implements the GOMP ABI subset faithfully. "
                "The simulator explores sequentially consistent interleavings; sampling, not proof.")
@@ -12,7 +13,7 @@ def P(scenarios, rule, technique, level_text, quick_runs=300, quick_budget_s=75,
 
 
 PROPS = {
-    "C01": P([("solve", "fast", 1.0)],
+    "C01": P([("solve", "fast", 2000, 1.0)],
              "seeded option vectors over the C01 configuration set (problem triple, grid parameters, boundary mode, strategy, "
              "extrapolation, cycle, FMG, levels, smoothing steps, norm, tolerances, threads, reduction factor) x simulator knobs "
              "(policy, shortfall); non-trivial = setup()+solve() completed and the oracles compared the residual history; "
@@ -22,9 +23,9 @@ PROPS = {
              "Seeded exploration of the ~20-dimensional option space; every parallel region of each solve runs under the "
              "deterministic OpenMP simulator (seeded team sizes, shortfall, reduction-combine order). The reported-stop half is "
              "decided against an independent sequential model of the operator.",
-             quick_runs=400, quick_budget_s=100, thorough_budget_s=1800,
+             quick_runs=2000, quick_budget_s=90, thorough_budget_s=1800,
              expect_probes=["stopped_early", "rate_set", "fmg_on", "extrapolation_1", "extrapolation_3", "take", "give"]),
-    "C03": P([("residual", "fast", 0.7), ("residual", "trace", 0.3)],
+    "C03": P([("residual", "fast", 4000, 0.6), ("residual", "trace", 1500, 0.4)],
              "seeded (problem, grid incl. arbitrary radii/angles and any circle/radial split, boundary mode, cache flags, "
              "level of a coarsening chain, input vectors incl. huge dynamic range, thread count 1..64) x schedules; the real "
              "ResidualGive/ResidualTake run under the simulator; distinct = distinct (bench, level) signature",
@@ -32,25 +33,25 @@ PROPS = {
              "a-priori rounding bound; explicit operator columns probed with unit vectors",
              "Give, take, cached and uncached residuals on every level are compared elementwise with f - A_ref u, coarse caches "
              "with a fresh evaluation, and explicit rows (Dirichlet identity, 9/7-point pattern and values) with the model.",
-             quick_runs=800,
+             quick_runs=5500, quick_budget_s=80,
              expect_probes=["coarse_cache_compared", "columns_probed", "all_radial_split", "cache_00", "cache_11"]),
-    "C04": P([("directsolver", "fast", 0.75), ("directsolver", "trace", 0.25)],
+    "C04": P([("directsolver", "fast", 1500, 0.7), ("directsolver", "trace", 600, 0.3)],
              "seeded (problem, grid from nr=5,ntheta=4 up to ~5000 nodes, boundary mode, thread count 2..>lines, right-hand "
              "sides incl. huge dynamic range) x schedules of the 3-colour parallel assembly",
              "deterministic simulation of the parallel CSR assembly + solve; backward-error oracle in the reference operator "
              "and in the other strategy's real residual; cross-schedule bit equality",
              "The solution returned by both direct solvers is fed to the reference operator (normwise backward error bound), "
              "to the other strategy's residual, and compared between strategies and between schedules.",
-             quick_runs=600, expect_probes=["T_gt_lines", "minimal_grid", "dirbc", "across_origin"]),
-    "C05": P([("spd", "fast", 0.8), ("spd", "trace", 0.2)],
+             quick_runs=2100, quick_budget_s=100, expect_probes=["T_gt_lines", "minimal_grid", "dirbc", "across_origin"]),
+    "C05": P([("spd", "fast", 5000, 0.7), ("spd", "trace", 1500, 0.3)],
              "seeded vector pairs vanishing on Dirichlet nodes on seeded grids (non-uniform angles, non-orthogonal mappings); "
              "A x := -(residual with zero rhs) computed by the real operators under the simulator",
              "deterministic simulation of the residual operators; symmetry/positivity oracle with rounding bound; Cholesky of "
              "reference line blocks",
              "<Ax,y> = <x,Ay> and <Ax,x> > 0 for the real give and take operators; the line blocks of the reference operator "
              "are Cholesky-factorisable (the blocks the smoothers really factorise are private: covered indirectly by C06).",
-             quick_runs=1500, expect_probes=["line_blocks_checked"]),
-    "C06": P([("smoother", "fast", 0.7), ("smoother", "trace", 0.3)],
+             quick_runs=6500, quick_budget_s=60, expect_probes=["line_blocks_checked"]),
+    "C06": P([("smoother", "fast", 5000, 0.6), ("smoother", "trace", 2500, 0.4)],
              "seeded smoothing-level grids (ntheta%4==0, both parities of the circle count via the splitting radius), "
              "sequences of 1..4 sweeps (the first sweep factorises lazily inside the parallel region), both strategies, "
              "thread count 1..64 x schedules",
@@ -58,25 +59,25 @@ PROPS = {
              "against the reference operator",
              "Per sweep: fixed point at the exact discrete solution, residual zero on the last colour, Dirichlet data set, give "
              "== take, energy norm of the error non-increasing, k-th sweep of a used object == first sweep of a fresh object.",
-             quick_runs=800,
+             quick_runs=7500, quick_budget_s=70,
              expect_probes=["fixed_point_checked", "energy_checked", "history_compared", "circles_parity_0", "circles_parity_1"]),
-    "C07": P([("exsmoother", "fast", 0.7), ("exsmoother", "trace", 0.3)],
+    "C07": P([("exsmoother", "fast", 5000, 0.6), ("exsmoother", "trace", 2500, 0.4)],
              "as C06 for the extrapolated smoothers on finest-level grids (>=3 circles, >=3 radial nodes)",
              "deterministic simulation of the extrapolated smoother sweeps; byte comparison of coarse nodes, residual on "
              "fine-only nodes of the last colour, fixed point, give == take, history",
              "Coarse nodes are compared as bytes (a NaN or -0.0 cannot hide a rewrite); the other clauses against the reference "
              "operator with the a-priori bound.",
-             quick_runs=800,
+             quick_runs=7500, quick_budget_s=70,
              expect_probes=["coarse_nodes_compared", "fixed_point_checked", "history_compared"]),
-    "C08": P([("transfer", "fast", 0.8), ("transfer", "trace", 0.2)],
+    "C08": P([("transfer", "fast", 12000, 0.7), ("transfer", "trace", 2000, 0.3)],
              "seeded fine/coarse pairs from coarsening chains (midpoint-nested and arbitrary radii/angles, any split, below and "
              "above the 10'000-node parallel threshold), thread count 1..32 x schedules, arbitrary vectors",
              "deterministic simulation of all transfer operators; adjointness, optimised==reference, injection o P = id "
              "(bitwise), convexity, linear exactness",
              "All nine Interpolation::apply* operators run under the simulator on both sides of their parallel threshold; "
              "algebraic identities decide. Linear exactness fails on non-midpoint pairs: known finding F6.",
-             quick_runs=1500, expect_probes=["midpoint_pair", "nonmidpoint_pair", "above_parallel_threshold", "explicit_weights_probed"]),
-    "C11": P([("regions", "trace", 0.8), ("solve", "trace", 0.2)],
+             quick_runs=14000, quick_budget_s=70, expect_probes=["midpoint_pair", "nonmidpoint_pair", "above_parallel_threshold", "explicit_weights_probed"]),
+    "C11": P([("regions", "trace", 8000, 0.65), ("solve", "trace", 120, 0.35)],
              "one scenario per parallel region of the library (residual, smoothers, extrapolated smoothers, direct-solver "
              "assembly, level caches, nine transfers, vector kernels) on seeded grid-shape classes (circles mod 2,3,4; ntheta "
              "mod 3,4; minimal sizes; both boundary modes) with team sizes 2..256 (>= trip count of every loop) and team "
@@ -86,11 +87,11 @@ PROPS = {
              "simulator is the OpenMP runtime) + cross-schedule bit equality of outputs",
              "The HB monitor decides race freedom exactly for the synchronisation performed at each explored (shape, team "
              "size); T >= trip count compares every pair of iterations of a phase. Shapes and team sizes are sampled.",
-             quick_runs=1000, quick_budget_s=90, thorough_budget_s=1800,
+             quick_runs=8120, quick_budget_s=120, thorough_budget_s=1800,
              expect_probes=["T_ge_trip_count", "above_parallel_threshold", "monitored", "op:smoother_give", "op:exsmoother_take",
                             "op:directsolver_give", "op:residual_give", "op:levelcache_coarse", "op:fmg_interpolation",
                             "op:vector_kernels"]),
-    "C12": P([("repro_ops", "fast", 0.6), ("kernels", "fast", 0.1), ("kernels", "trace", 0.1), ("repro_solve", "fast", 0.2)],
+    "C12": P([("repro_ops", "fast", 900, 0.4), ("kernels", "fast", 3000, 0.1), ("kernels", "trace", 1000, 0.1), ("repro_solve", "fast", 1500, 0.4)],
              "(a) each operator call / fixed-cycle solve executed under >=4 scheduler seeds with identical team sizes; (b) the "
              "same plan at T=1 and another T in {2,3,4,8,16,32}; (c) vector kernels at n in {1,7,9999,10000,10001,20011,65537} "
              "against the exact (long double, compensated) value",
@@ -98,11 +99,11 @@ PROPS = {
              "sweep with a-priori re-association bound, kernels vs exact sums",
              "Bit equality is demanded between schedules at fixed team sizes; across thread counts the difference is bounded "
              "a priori (elementwise / residual space). Reduction scalars are checked to rounding, not bitwise.",
-             quick_runs=700, quick_budget_s=100, thorough_budget_s=1800,
+             quick_runs=6400, quick_budget_s=120, thorough_budget_s=1800,
              expect_probes=["above_parallel_threshold", "below_parallel_threshold", "compared_with_T1", "multi_thread_region_executed"]),
 }
 
-PROPS["C13"] = P([("reuse", "fast", 1.0)],
+PROPS["C13"] = P([("reuse", "fast", 400, 1.0)],
     "seeded operation histories (length 2..8) on ONE GMGPolar object: option changes (solve-time ones without, structural ones "
     "with a new setup), setup, solve, solve-without-setup, rejected setup (take without caches), setup failing by an injected "
     "bad_alloc, the divideBy2++ refinement loop of convergence_order; every extrapolation mode, FMG on/off, both strategies; "
@@ -112,10 +113,10 @@ PROPS["C13"] = P([("reuse", "fast", 1.0)],
     "After every solve of a history: solution (bitwise), iteration count, reduction factor and error figures equal those of a "
     "fresh object with the same cumulative options, both run under the canonical schedule with identical team sizes, so any "
     "difference is due to history alone.",
-    quick_runs=160, quick_budget_s=110, thorough_budget_s=1800,
+    quick_runs=400, quick_budget_s=110, thorough_budget_s=1800,
     expect_probes=["solve_without_setup", "second_or_later_solve", "rejected_setup", "fault:alloc_fail"])
 
-PROPS["C09"] = P([("fmgop", "fast", 0.3), ("fmgop", "trace", 0.1), ("fmgstart", "fast", 0.6)],
+PROPS["C09"] = P([("fmgop", "fast", 6000, 0.2), ("fmgop", "trace", 1000, 0.1), ("fmgstart", "fast", 3000, 0.7)],
     "(A) the FMG interpolation on seeded fine/coarse pairs (non-uniform radial/angular spacing, every node class, both sides of "
     "the parallel threshold); (B) solve() with maxIterations=0 (start-up only) for 2..6 levels, 0..3 FMG cycles of every type, "
     "with/without extrapolation on (i) a fresh object, (ii) an object whose work vectors were filled with junk (NaN/Inf/large), "
@@ -125,10 +126,10 @@ PROPS["C09"] = P([("fmgop", "fast", 0.3), ("fmgop", "trace", 0.1), ("fmgstart", 
     "The start vector must be bit-identical across object histories and schedules, equal the harness's nested iteration "
     "(coarsest direct solve, interpolate, cycles) built from the object's public operators, solve the coarse system when no "
     "start-up cycles are used, and be within 10x of the converged discrete error when >=1 cycle per level is used.",
-    quick_runs=900, quick_budget_s=90, thorough_budget_s=1500,
+    quick_runs=10000, quick_budget_s=90, thorough_budget_s=1500,
     expect_probes=["used_object_compared", "interpolated_coarse_solution_compared", "accuracy_compared", "levels_2", "levels_4",
                    "midpoint_pair", "nonmidpoint_pair"])
-PROPS["C10"] = P([("cycles", "fast", 0.8), ("cycles", "trace", 0.2)],
+PROPS["C10"] = P([("cycles", "fast", 6000, 0.6), ("cycles", "trace", 1000, 0.4)],
     "each of the six private cycle functions (through the guarded accessor) for 2..5 levels, pre/post smoothing counts 0..3, both "
     "strategies and boundary modes: (a) iterate = exact solution of the (extrapolated) system, (b) random iterate, two levels, no "
     "smoothing, (c) every scratch vector of every level pre-filled with junk / left by previous cycles",
@@ -136,11 +137,11 @@ PROPS["C10"] = P([("cycles", "fast", 0.8), ("cycles", "trace", 0.2)],
     "algebraic coarse-grid correction from public operators, bitwise junk- and history-independence",
     "(a) unchanged in residual space; (b) equals u + P A_c^-1 R (f - A u) (extrapolated: 4/3 R_ex r - 1/3 r_c(inject u)); (c) "
     "bit-identical with and without NaN junk in the scratch vectors and after previous cycles, under the canonical schedule.",
-    quick_runs=900, quick_budget_s=80, thorough_budget_s=1500,
+    quick_runs=7000, quick_budget_s=100, thorough_budget_s=1500,
     expect_probes=["mode_0", "mode_1", "mode_2", "history_compared", "cycle_V", "cycle_W", "cycle_F", "cycle_V_ex", "cycle_W_ex",
                    "cycle_F_ex", "levels_3"])
 
-PROPS["C02"] = P([("ladder", "fast", 1.0)],
+PROPS["C02"] = P([("ladder", "fast", 48, 1.0)],
     "refinement ladders divideBy2 = 0..3 (quick, 17x32 -> 129x256) / 0..4 (thorough, -> 257x512) for every smooth manufactured "
     "problem x geometry x coefficient profile, both boundary treatments (across-origin with R0 <= 1e-5), both strategies, cache "
     "flags, on ONE reused object (the shipped convergence_order pattern) or fresh objects, each solve run under the simulator "
@@ -153,7 +154,7 @@ PROPS["C02"] = P([("ladder", "fast", 1.0)],
     expect_probes=["order_judged", "extrapolated_ladder", "plain_ladder", "reused_object", "extrapolated_vs_plain_compared",
                    "geometry_0", "geometry_1", "geometry_2"])
 
-PROPS["C14"] = P([("trisolve", "fast", 0.6), ("trisolve", "trace", 0.2), ("trisolve", "asan", 0.2)],
+PROPS["C14"] = P([("trisolve", "fast", 5000, 0.4), ("trisolve", "trace", 2000, 0.3), ("trisolve", "asan", 2000, 0.3)],
     "histories {construct(n, cyclic?), set entries, solve(b), solve(b) again, solve(b') ...} for n = 2,3,4..4096 over SPD "
     "generators (strictly diagonally dominant, L L^T products, zero sub-diagonals, corner elements of either sign, symmetric "
     "row scaling over 1e-5..1e5), DiagonalSolver likewise; a variant runs disjoint solver objects on 2..4 simulated caller "
@@ -162,9 +163,9 @@ PROPS["C14"] = P([("trisolve", "fast", 0.6), ("trisolve", "trace", 0.2), ("triso
     "residual with normwise backward-error bound 16 n eps; bit equality of repeated solves",
     "No schedule or I/O is involved in a single solve; the simulated dimension is the object's history (unfactorised -> "
     "factorised) and concurrent use of disjoint objects (no hidden shared scratch).",
-    quick_runs=6000, quick_budget_s=40, thorough_budget_s=900,
-    expect_probes=["n_class_2_3", "n_class_large", "cyclic", "plain", "repeated_solve", "widely_scaled_rows", "caller_threads"])
-PROPS["C15"] = P([("lapool", "fast", 0.5), ("lapool", "trace", 0.25), ("lapool", "asan", 0.25)],
+    quick_runs=9000, quick_budget_s=60, thorough_budget_s=900,
+    expect_probes=["n_class_2_3", "n_class_large", "cyclic", "plain", "repeated_solve", "widely_scaled_rows", "caller_threads", "reassigned"])
+PROPS["C15"] = P([("lapool", "fast", 5000, 0.4), ("lapool", "trace", 2500, 0.3), ("lapool", "asan", 2500, 0.3)],
     "operation histories (4..40 ops) over a pool of Vector / SparseMatrixCOO / SparseMatrixCSR / SparseLUSolver / "
     "SymmetricTridiagonalSolver (cyclic or not) / DiagonalSolver objects: construct, set entries, solve, copy-construct, "
     "copy-assign over equal or different size, move-construct, move-assign, self-assign, copy of a default-constructed object, "
@@ -173,11 +174,11 @@ PROPS["C15"] = P([("lapool", "fast", 0.5), ("lapool", "trace", 0.25), ("lapool",
     "value-semantics model (element reads; for solvers the solution of the model system)",
     "After every copy/move the target is observationally equal to the source at that moment whatever the source had done "
     "before; later operations on one do not affect the other; after an injected allocation failure the source is unchanged.",
-    quick_runs=6000, quick_budget_s=50, thorough_budget_s=900,
+    quick_runs=10000, quick_budget_s=60, thorough_budget_s=900,
     expect_probes=["op:copy_construct", "op:copy_assign", "op:move_construct", "op:move_assign", "op:self_assign",
                    "op:copy_default", "caller_threads", "fault:alloc_fail"])
 
-PROPS["C18"] = P([("gridfiles", "asan", 0.8), ("gridfiles", "fast", 0.2)],
+PROPS["C18"] = P([("gridfiles", "asan", 1200, 0.8), ("gridfiles", "fast", 500, 0.2)],
     "histories {generate(params) -> invariants -> every-second-node subgrid -> levels via setup() -> writeToFile(precision) -> "
     "fault -> load / setup(load_grid_file)} over nr_exp 1..7, ntheta_exp -1..8, anisotropic_factor 0..6, divideBy2 0..3, R0, Rmax, "
     "refinement radius inside / outside / at the ends of [R0,Rmax] and the CLI default 0, level caps; faults: open_fail, "
@@ -189,11 +190,11 @@ PROPS["C18"] = P([("gridfiles", "asan", 0.8), ("gridfiles", "fast", 0.2)],
     "Accepted parameter sets must yield valid, nested, coarsenable grids with exactly R0/Rmax ends; rejected ones an exception "
     "(never an assertion, sanitizer report or crash). After any file fault the load either throws or yields a grid satisfying "
     "the validity invariants. Write-index crash points of small grids are enumerated, the other fault kinds sampled.",
-    quick_runs=1500, quick_budget_s=110, thorough_budget_s=1500,
+    quick_runs=1700, quick_budget_s=120, thorough_budget_s=1500,
     expect_probes=["parameters_accepted", "parameters_rejected", "refinement_radius_outside_domain", "anisotropic",
                    "round_trip", "load_rejected", "load_accepted", "crash_points_enumerated", "levels_checked",
                    "solver_loaded_grid", "nesting_checked"])
-PROPS["C20"] = P([("options", "asan", 0.45), ("options", "fast", 0.35), ("cli", "asan", 0.2)],
+PROPS["C20"] = P([("options", "asan", 1200, 0.4), ("options", "fast", 1200, 0.35), ("cli", "asan", 3000, 0.25)],
     "(a) option vectors through every public setter: all problem triples incl. Culham-free set, grids down to the smallest, "
     "anisotropic factor with refinement radius anywhere (incl. the CLI default 0), disabled tolerances, zero smoothing steps, zero "
     "iterations, level caps 1..6, take without caches, 1..12 threads, arbitrary reduction factor, out-of-range enum integers, "
@@ -203,7 +204,7 @@ PROPS["C20"] = P([("options", "asan", 0.45), ("options", "fast", 0.35), ("cli", 
     "and solution)",
     "Outcome must be an exception / non-zero exit or completion; every statistic must be finite/in range and independent of the "
     "poison pattern (the deterministic stand-in for MemorySanitizer, which is not usable here).",
-    quick_runs=900, quick_budget_s=120, thorough_budget_s=1800,
+    quick_runs=5400, quick_budget_s=130, thorough_budget_s=1800,
     expect_probes=["completed", "rejected", "both_tolerances_disabled", "zero_iterations", "zero_smoothing_steps", "level_cap_2",
                    "take_without_caches", "poison_differential", "exit", "returned", "exception"])
 
